@@ -764,8 +764,110 @@ func genCosign(g *hx.Gen) {
 	}
 }
 
+// Client.MultiSign (SignMultiSignTransactionByM): one wallet holds a SUBSET of the n keys of an m-of-n account
+// (at least m of them, chosen by script position) and signs in one call; the node side is the real
+// checkTransactionSignature (op wtx).  Every 1 <= m <= n <= 6, every subset size, and in particular the subsets
+// that start at script position m or contain it with few keys before it.
+func genMultiSignByM(g *hx.Gen) {
+	r := g.R
+	dir, err := os.MkdirTemp("", "c37-bym")
+	if err != nil {
+		panic("harness: tempdir")
+	}
+	defer os.RemoveAll(dir)
+	round := 0
+	for n := 2; n <= 6; n++ {
+		for m := 1; m <= n; m++ {
+			var subsets [][]int
+			// all keys; the first m; the last m; positions m..; position m plus the last m-1; random subsets
+			all := make([]int, n)
+			for i := range all {
+				all[i] = i
+			}
+			subsets = append(subsets, all, all[:m], all[n-m:])
+			if m < n {
+				tail := append([]int{}, all[m:]...)
+				if len(tail) >= m {
+					subsets = append(subsets, tail)
+				}
+				if n-1 >= m { // position m together with the highest positions
+					pick := map[int]bool{m: true}
+					for i := n - 1; i >= 0 && len(pick) < m; i-- {
+						pick[i] = true
+					}
+					var sub []int
+					for i := 0; i < n; i++ {
+						if pick[i] {
+							sub = append(sub, i)
+						}
+					}
+					if len(sub) >= m {
+						subsets = append(subsets, sub)
+					}
+				}
+			}
+			for k := 0; k < g.N(2, 10); k++ {
+				perm := rperm(r, n)
+				size := m + r.Intn(n-m+1)
+				sub := append([]int{}, perm[:size]...)
+				subsets = append(subsets, sub)
+			}
+			for _, sub := range subsets {
+				round++
+				var members []*account.Account
+				var pubs []*crypto.PublicKey
+				for i := 0; i < n; i++ {
+					a := newAccount(r)
+					members = append(members, a)
+					pubs = append(pubs, a.PublicKey)
+				}
+				ms, err := account.NewMultiSigAccount(m, pubs) // sorts pubs by X: pubs[i] is script position i
+				if err != nil || ms.RedeemScript == nil {
+					continue
+				}
+				byPub := map[string]*account.Account{}
+				for _, a := range members {
+					b, _ := a.PublicKey.EncodePoint(true)
+					byPub[string(b)] = a
+				}
+				var held []*account.Account
+				for _, pos := range sub {
+					b, _ := pubs[pos].EncodePoint(true)
+					held = append(held, byPub[string(b)])
+				}
+				cl, err := account.CreateFromAccount(filepath.Join(dir, fmt.Sprintf("b%d.dat", round)), []byte("pw"), held[0])
+				if err != nil {
+					panic("harness: keystore")
+				}
+				for _, a := range held[1:] {
+					if err := cl.SaveAccount(a); err != nil {
+						panic("harness: save account")
+					}
+				}
+				o := &txOp{Variant: "tx", Ttype: byte(ctypes.TransferAsset), Pver: 0, Lock: uint32(r.Intn(1000))}
+				o.Refs = []hashIn{{Pfx: ms.ProgramHash[0], Hash: common.ToCodeHash(ms.RedeemScript).Bytes()}}
+				o.Attrs = []attrIn{{Usage: byte(ctypes.Nonce), Data: r.Bytes(8)}}
+				tx, _, ok := buildTx(o, []progIn{{Code: ms.RedeemScript}})
+				if !ok {
+					panic("harness: buildTx")
+				}
+				signed, err := cl.MultiSign(m, tx)
+				if err != nil {
+					panic("harness: Client.MultiSign: " + err.Error())
+				}
+				var sp []progIn
+				for _, p := range signed.Programs() {
+					sp = append(sp, progIn{Code: p.Code, Param: p.Parameter})
+				}
+				g.Emit("wtx%s", txsigLine(o, sp)[5:])
+			}
+		}
+	}
+}
+
 func gen(g *hx.Gen) {
 	mrand.Seed(int64(g.Seed))
+	genMultiSignByM(g)
 	genCosign(g)
 	genWalletTx(g)
 	genKeystore(g)
